@@ -1,7 +1,7 @@
 /-!
 # Binning (C17, C18): `hcipy.field.util.subsample_field`, `evaluate_supersampled`
 
-A field is its flat list of samples in hcipy order (x fastest), i.e. the C-order ravel of
+A field is its flat list of samples in hcipy order (x fastest), i.e. the C-order flatIdx of
 `field.shaped`, whose axes are `(…, y, x)`; a tensor field has the tensor indices in front
 (slowest).  `subsample_field(field, s, new_grid, statistic)` reshapes to
 `(tensor…, n_1, s, n_2, s, …)` with `(n_1, n_2, …) = new_grid.shape` and reduces over the `s`
@@ -58,6 +58,36 @@ def binNDs : List Nat → List Nat → List K → List K
     let m := fineSizes ss rest
     (chunks s n (chunks m (n * s) v)).flatMap fun g => binNDs ss rest (vsum m g)
   | _, _, v => v
+
+/-! ### Spec: which fine samples a coarse pixel adds up (closed form of the index map)
+
+`boxSums dims ss c get` is `Σ_{r_0 < s_0} Σ_{r_1 < s_1} … get(flatIdx fine (c·s + r))`, the sum of the fine samples
+`get f` over the box of sub-pixels of the coarse pixel with multi-index `c` (slowest axis first, like `dims`
+and `ss`); `flatIdx dims c` is the flat index of `c`.  `Lemmas/Binning.lean: binNDs_getD` proves that pixel
+`flatIdx dims c` of `binNDs ss dims v` is `boxSums dims ss c v[·]`; the driver op `binpix` runs `boxSums`. -/
+
+/-- flat (C-order) index of the multi-index `c` in an array of shape `dims` -/
+def flatIdx : List Nat → List Nat → Nat
+  | [], _ => 0
+  | _ :: rest, c => c.headD 0 * size rest + flatIdx rest c.tail
+
+/-- `c` is a valid multi-index of an array of shape `dims` -/
+def InBounds : List Nat → List Nat → Prop
+  | [], _ => True
+  | n :: rest, c => c.headD 0 < n ∧ InBounds rest c.tail
+
+instance : (dims c : List Nat) → Decidable (InBounds dims c)
+  | [], _ => isTrue trivial
+  | n :: rest, c =>
+    have := instDecidableInBounds rest c.tail
+    inferInstanceAs (Decidable (c.headD 0 < n ∧ InBounds rest c.tail))
+
+/-- sum of `get` over the fine flat indices of the sub-pixels of coarse pixel `c` -/
+def boxSums : List Nat → List Nat → List Nat → (Nat → K) → K
+  | [], _, _, get => get 0
+  | _ :: rest, ss, c, get =>
+    ((List.range (ss.headD 1)).map fun r0 =>
+      boxSums rest ss.tail c.tail fun f => get ((c.headD 0 * ss.headD 1 + r0) * fineSizes ss.tail rest + f)).sum
 
 /-- the shape check `reshape` performs: the field must have exactly `fineSize` samples -/
 def binSum? (s : Nat) (dims : List Nat) (v : List K) : Option (List K) :=
